@@ -116,7 +116,19 @@ fn soup(p: ViewParams, max_tris: usize) -> BoxedStrategy<Vec<[[f32; 3]; 3]>> {
 }
 
 pub fn scene_strategy(max_tris: usize) -> BoxedStrategy<Scene> {
-    (dims(), dims())
+    scene_strategy_dims(max_tris, dims(), dims())
+}
+
+/// Targets tens of thousands of pixels long and one or two high (or the transpose): screen coordinates whose ulp is 1/256 px,
+/// where a clip-space rounding error of one ulp is a visible fraction of a pixel at the far edge of the viewport.
+pub fn long_scene(max_tris: usize) -> BoxedStrategy<Scene> {
+    let long = || prop_oneof![2 => 33_000u32..70_000, 1 => Just(65_536u32), 1 => Just(32_768u32), 1 => Just(131_072u32)].boxed();
+    let short = || prop_oneof![2 => Just(1u32), 1 => Just(2u32)].boxed();
+    prop_oneof![scene_strategy_dims(max_tris, long(), short()), scene_strategy_dims(max_tris, short(), long())].boxed()
+}
+
+pub fn scene_strategy_dims(max_tris: usize, dw: BoxedStrategy<u32>, dh: BoxedStrategy<u32>) -> BoxedStrategy<Scene> {
+    (dw, dh)
         .prop_flat_map(|(bw, bh)| (Just((bw, bh)), span(bw), span(bh), any::<bool>(), 0.1f32..10.0, (-2.0f32..2.0).prop_map(|e| 10f32.powf(e)), prop_oneof![1 => Just(1000.0f32), 1 => Just(1.001f32), 4 => 1.01f32..1000.0]))
         .prop_flat_map(move |((bw, bh), (l, r), (t, b), ortho, focal, near, ratio)| {
             let far = (near * ratio).max(ulp_up(near));
@@ -426,6 +438,8 @@ pub fn run(cx: &mut Ctx) {
     cx.prop_check("pixel-grid", n, move || grid_scene(4), |c, obs| check(c, obs));
     let n = cx.n(20_000, 400_000);
     cx.prop_check("many-near-coplanar", n, coplanar_scene, |c, obs| check(c, obs));
+    let n = cx.n(3_000, 100_000);
+    cx.prop_check("long-viewports", n, move || long_scene(3), |c, obs| check(c, obs));
     let n = cx.n(100_000, 3_000_000);
     cx.prop_check("spans-direct", n, crate::c04::tri_case, |c, obs| check_spans(c, obs));
     let n = cx.n(150_000, 4_000_000);
